@@ -19,6 +19,8 @@ import math
 import random
 import re
 import struct
+import sys
+import time
 from fractions import Fraction
 
 import vlib
@@ -72,6 +74,15 @@ def neighbours(x, single):
 
 
 _SEEN = {}
+
+
+def phase(ctx, name):
+    """wall time of each phase into the evidence; progress on stderr"""
+    now = time.time()
+    ph = ctx.extra.setdefault('phase_wall_s', {})
+    ph[name] = round(now - ctx.extra.get('_t_last', ctx.t0), 1)
+    ctx.extra['_t_last'] = now
+    print(f'[C16] {name}: {ph[name]} s', file=sys.stderr, flush=True)
 
 
 def report(ctx, sig, det, found):
@@ -432,7 +443,7 @@ def run_values(ctx, suite, vals, exe, model_idx=None):
     ctx.extra.setdefault('model_evaluations', {})[suite] = nmodel
     # "a number and its negation show the same digits"
     for tag, ty, v in vals:
-        if ty < 3 or not (v > 0):
+        if ty < 3 or not (v > 0) or not finite(v):
             continue
         tp = texts.get((ty, fb(v)))
         tn = texts.get((ty, fb(-v)))
@@ -474,7 +485,9 @@ def judge_value(ctx, suite, tag, ty, v, case, raw, mo, ys):
         report(ctx, f'C16/print-str-differ({TYN[ty]})', det, True)
     # --- property, on the behaviour of the real code
     bad = False
-    if ty < 3:
+    if ty >= 3 and not finite(v):
+        pass        # inf / nan: outside the property (finite values); only the tie below
+    elif ty < 3:
         want = (' ' if v >= 0 else '-') + str(abs(v))
         if mo is not None and (t == want) != bool(mverdict[0]):
             ctx.broken.append(f'oracle {suite}: Coq plain_int_text and the harness disagree on {t!r}')
@@ -771,6 +784,7 @@ def main(tier, seed):
     ]
     ctx.prove()
     exe = ctx.model('NumText')
+    phase(ctx, 'coq-build')
 
     # ---- A: all INTEGER values
     valsA = [('all', 1, z) for z in range(-32768, 32768)]
@@ -778,12 +792,14 @@ def main(tier, seed):
                     'READ (real DataDevice), INPUT (real _exec_input), VAL (real _exec_sdbl) of that text; '
                     'distinct = distinct (type, value)')
     run_values(ctx, 'integer_all', valsA, exe)
+    phase(ctx, 'A-integer')
     ctx.extra['exhaustive_integer'] = True
 
     # ---- B: LONG, SINGLE, DOUBLE
     longs = int_family_long(ctx, 3000 if tier == 'quick' else 100000)
     valsL = [('long', 2, z) for z in longs]
     run_values(ctx, 'long', valsL, exe)
+    phase(ctx, 'B-long')
     fam = float_families(ctx, tier)
     frng(ctx, 'order').shuffle(fam)      # spread the expensive exponents over the model processes
     # CPU budget of the extracted model on the float families (seconds, summed over
@@ -800,13 +816,20 @@ def main(tier, seed):
                     f'rational arithmetic; {len(midx)} of them (constant stride per family, CPU budget {budget} s) '
                     f'additionally through the extracted model (text tie, reader ties, Coq oracle NumSpec)')
     run_values(ctx, 'floats', fam, exe, midx)
+    # inf and nan are not in the property's scope; the model must still describe them
+    nonfin = [('nonfinite', ty, x) for ty in (3, 4) for x in (INF, -INF, float('nan'))]
+    run_values(ctx, 'nonfinite', nonfin, exe)
+    phase(ctx, 'B-floats')
 
     # ---- V, R: readers on arbitrary texts
     run_val_texts(ctx, tier, exe)
     run_read_texts(ctx, tier, exe)
+    phase(ctx, 'V-R-texts')
 
     # ---- P: compiled programs
     run_programs(ctx, tier, None)
+    phase(ctx, 'P-programs')
+    ctx.extra.pop('_t_last', None)
     return ctx.finish()
 
 
